@@ -139,6 +139,8 @@ class MTree:
                 if c is v:
                     return i
             return Refuse(POS, "before-node is not a child of the target")
+        if tag == "raw":
+            return Refuse(POS, "`before` is neither None, a bool, an int nor a node")
         return Unspec("unknown before")
 
     def _refuse_uniq(self, K, before):
@@ -153,10 +155,10 @@ class MTree:
     def add(self, p: MNode | None, data, before=None, data_id=None, kind=None, node_id=None):
         did = self.id_of(data, data_id)
         K = self.kids(p)
-        if any(c.data_id == did for c in K):
-            return self._refuse_uniq(K, before)
         if node_id is not None and any(n.node_id == node_id for n in self.all()):
             return Unspec("duplicate node_id")
+        if any(c.data_id == did for c in K):
+            return self._refuse_uniq(K, before)
         pos = self._position(K, before)
         if not isinstance(pos, int):
             return pos
